@@ -1257,6 +1257,15 @@ def eval_region(fn, entry, env, max_steps=2000, stop_at=None, menv=None, assume_
                         env.pop(l, None)
                 elif k == 'cast' and rv['kind'] == 'IntToInt':
                     env[l] = rd(rv['a']) & ((1 << INT_W.get(rv['ty'], 64)) - 1)
+                elif k == 'discr':
+                    # field-less enums are represented by their variant index
+                    v_ = rd_place(rv['place'])
+                    if isinstance(v_, int):
+                        env[l] = v_
+                    else:
+                        env.pop(l, None)
+                elif k == 'agg' and rv.get('agg') == 'adt' and not rv.get('ops') and 'vidx' in rv:
+                    env[l] = rv['vidx']
                 else:
                     env.pop(l, None)
                     refs.pop(l, None)
